@@ -5,7 +5,7 @@ CONSTANTS
   NExtra = 2
   Rounds = 2
   MaxPolls = 100000
-  TimedLoops = {FALSE}
+  TimedLoops = {"default"}
   MaxIntr = 100000
   Mutation = "none"
   RECORD = TRUE
